@@ -655,11 +655,11 @@ def TlKeep (s' : Sys) (tl tl' : Nat → List Entry) : Prop :=
 
 /-- the term log of a term that already had a leader only grows by appending -/
 def TlMono (s : Sys) (tl tl' : Nat → List Entry) : Prop :=
-  ∀ u, (∃ c, s.elected c u) → ∃ ext, tl' u = tl u ++ ext
+  ∀ u, (∃ c, s.elected c u) → ∃ ext, tl' u = tl u ++ ext ∧ ∀ e, e ∈ ext → e.term = u
 
 theorem aux_tlkeep_refl (s' : Sys) (tl : Nat → List Entry) : TlKeep s' tl tl := fun _ _ => rfl
 
-theorem aux_tlmono_refl (s : Sys) (tl : Nat → List Entry) : TlMono s tl tl := fun _ _ => ⟨[], by simp⟩
+theorem aux_tlmono_refl (s : Sys) (tl : Nat → List Entry) : TlMono s tl tl := fun _ _ => ⟨[], by simp, by simp⟩
 
 theorem aux_tlkeep_set (s : Sys) (m : Nat) (st' : NodeState) (out : List (Nat × Rpc)) (tl : Nat → List Entry)
     (L : List Entry) (hr : st'.role = .leader) : TlKeep (s.update m st' out) tl (tlSet tl st'.term L) := by
@@ -682,7 +682,7 @@ theorem aux_tinv_micro (n : Nat) (s s' : Sys) (tl : Nat → List Entry) (hi : TI
     refine ⟨_, h, aux_tlkeep_set s m st' out tl _ hr, ?_⟩
     intro u ⟨c, hc⟩
     have : u ≠ st'.term := by intro hu; subst hu; exact hnone c hc
-    exact ⟨[], by simp [tlSet, this]⟩
+    exact ⟨[], by simp [tlSet, this], by simp⟩
   cases h with
   | deliver m sender rpc st' out hm hnet hh =>
     obtain ⟨w1, w2, w3⟩ := he.wfNet _ hnet
@@ -770,11 +770,13 @@ theorem aux_tinv_micro (n : Nat) (s s' : Sys) (tl : Nat → List Entry) (hi : TI
       refine ⟨_, aux_tinv_append n m s tl hi he _ ext hr a b c d, aux_tlkeep_set s m _ [] tl _ a, ?_⟩
       intro u _
       by_cases hu : u = (handleRequests (s.nodes m) [] rs).1.term
-      · refine ⟨ext, ?_⟩
-        subst hu
-        simp only [tlSet, if_true]
-        rw [c, b, hi.leaderLog m hr]
-      · exact ⟨[], by simp [tlSet, hu]⟩
+      · refine ⟨ext, ?_, ?_⟩
+        · subst hu
+          simp only [tlSet, if_true]
+          rw [c, b, hi.leaderLog m hr]
+        · intro e he'
+          rw [hu, b]; exact d e he'
+      · exact ⟨[], by simp [tlSet, hu], by simp⟩
     · rw [hnl hr]
       refine keep (aux_tinv_keep n m s tl hi he _ [] (le_refl _) (fun h => absurd h hr) (fun h => absurd h hr)
         (hi.nodeB m) (hi.pos m) (hi.nfPos m) (by simp))
